@@ -878,7 +878,11 @@ def record_specs(draw) -> dict:
 
     # genes: the shared layout plus genes anchored at area boundaries
     genes = draw(gen.gene_layout(length, circular, max_genes=8, size_hint=max(9, unit // 3)))
-    seen = {(tuple(map(tuple, g["loc"]["parts"])), g["loc"]["strand"]) for g in genes}
+    # two genes never cover the same bases on the same strand (with touching exons the part lists could differ
+    # while the bases agree; merged by the shift they would collide in the region file)
+    def gene_key(loc: dict) -> tuple:
+        return (ring.bases(loc), loc["strand"])
+    seen = {gene_key(g["loc"]) for g in genes}
     for start, size in area_arcs:
         if draw(st.integers(0, 2)) > 0:
             continue
@@ -896,7 +900,7 @@ def record_specs(draw) -> dict:
                 loc = {"parts": parts, "strand": strand, "kind": "multi"}
             else:
                 loc = _arc_loc(start, size, length, strand)
-            key = (tuple(map(tuple, loc["parts"])), loc["strand"])
+            key = gene_key(loc)
             if key not in seen:
                 seen.add(key)
                 genes.append({"loc": loc})
@@ -915,7 +919,7 @@ def record_specs(draw) -> dict:
         if not circular and (gstart + gsize > length):
             continue
         loc = _arc_loc(gstart, gsize, length, draw(st.sampled_from([1, -1])))
-        key = (tuple(map(tuple, loc["parts"])), loc["strand"])
+        key = gene_key(loc)
         if key in seen:
             continue
         seen.add(key)
@@ -933,10 +937,10 @@ def record_specs(draw) -> dict:
         if sum(e - s for s, e in parts) >= 3:
             if strand == -1:
                 parts.reverse()
-            key = (tuple(map(tuple, parts)), strand)
-            if key not in seen:
-                seen.add(key)
-                genes.append({"loc": {"parts": parts, "strand": strand, "kind": "span"}})
+            loc = {"parts": parts, "strand": strand, "kind": "span"}
+            if gene_key(loc) not in seen:
+                seen.add(gene_key(loc))
+                genes.append({"loc": loc})
     for index, gene in enumerate(genes):
         gene["name"] = f"g{index}"
         if draw(st.integers(0, 2)) == 0:
